@@ -1642,6 +1642,52 @@ def plan_C09(ctx):
                       "plus one script per transition of the reconfiguration model", {"C09"})
 
 
+def c15_ownership_execs(r):
+    """deterministic family (not sampled): every way of making a copy (copy construction, assignment onto a fresh / onto a configured
+    optimizer) x every map binding of the source (default maps, user time map, user spatial map, both) x what happens to the source
+    afterwards (destroyed and poisoned, re-initialised and re-flagged, user map mutated, nothing) x order x stateful map family"""
+    execs = []
+    k = 0
+    for order in gen.ORDERS:
+        for (tm, sm) in (("sq", "lift"), ("quad", "lift"), ("sq", "id")):
+            binds = [(False, False)] + ([(True, False)] if tm == "sq" else []) + ([(False, True)] if sm == "lift" else []) + \
+                    ([(True, True)] if tm == "sq" and sm == "lift" else [])
+            for (ut, um) in binds:
+                for how in ("copy", "assign_fresh", "assign_configured"):
+                    for after in ("destroy", "reconfigure", "mutate", "nothing"):
+                        if after == "mutate" and not (ut or um):
+                            continue
+                        k += 1
+                        D = (2, 3)[k % 2]
+                        h = []
+                        if ut or um:
+                            h.append({"op": "map_new", "map": 1})
+                        h.append({"op": "opt_new", "obj": 1})
+                        if ut:
+                            h.append({"op": "set_tmap", "obj": 1, "map": 1})
+                        if um:
+                            h.append({"op": "set_smap", "obj": 1, "map": 1})
+                        h += [{"op": "set_init", "obj": 1, "v": 1 + k % 2}, {"op": "set_flags", "obj": 1, "f": 1}]
+                        if k % 3:
+                            h.append({"op": "evaluate", "obj": 1, "own": True})
+                        if how == "copy":
+                            h.append({"op": "opt_copy", "dst": 2, "src": 1})
+                        else:
+                            h.append({"op": "opt_new", "obj": 2})
+                            if how == "assign_configured":
+                                h += [{"op": "set_init", "obj": 2, "v": 2 - k % 2}, {"op": "set_flags", "obj": 2, "f": 0}, {"op": "evaluate", "obj": 2, "own": True}]
+                            h.append({"op": "opt_assign", "dst": 2, "src": 1})
+                        if after == "destroy":
+                            h.append({"op": "opt_destroy", "obj": 1})
+                        elif after == "reconfigure":
+                            h += [{"op": "set_init", "obj": 1, "v": 2 - k % 2}, {"op": "set_flags", "obj": 1, "f": 0}]
+                        elif after == "mutate":
+                            h.append({"op": "map_mutate", "map": 1})
+                        cmds = expand_opt_script(r, h, order, D, tm, sm, True)
+                        execs.append((len(cmds) * D, cmds))
+    return execs
+
+
 def plan_C15(ctx):
     selftest_rat(ctx)
     mc_optobj(ctx)
@@ -1657,6 +1703,7 @@ def plan_C15(ctx):
                                 alphabet=("new", "init", "smap", "tmap", "copy", "assign", "map_new", "destroy"))
     if not ctx.quick():     # long random walks of 12 calls over two optimizers and a user map (TLC -simulate)
         hexecs += opt_history_execs(ctx, r, 0, fams, maxops=12, simulate=(600, 12))
+    hexecs += c15_ownership_execs(r)
     # spline-object copies
     tab = ProbTable(ctx.seed)
     sexecs = []
@@ -1745,6 +1792,28 @@ def c16_execs(r, quick):
                 cmds.append({"op": "verdict", "obj": 1})
                 init(lambda c: None, "pts")
                 cmds.append({"op": "verdict", "obj": 1})
+                # verdicts of copies: a copy / an assigned optimizer has the verdict AND the message state of its source (valid source
+                # onto one that reported an error, invalid source onto a valid one, onto a fresh one, copy construction of either)
+                def init_on(obj, mod, how="durs"):
+                    c = base.cmd_init(obj, how)
+                    mod(c)
+                    cmds.append(c)
+                nan0 = lambda c: c["P"][0].__setitem__(0, "nan")
+                new = lambda obj: cmds.append({"op": "opt_new", "obj": obj, "order": order, "dim": D, "tm": fam[0], "sm": fam[1]})
+                for (src_ok, dst_state, how) in ((True, "invalid", "assign"), (False, "valid", "assign"), (True, "fresh", "assign"), (False, "fresh", "assign"),
+                                                 (True, None, "copy"), (False, None, "copy")):
+                    new(2)
+                    init_on(2, (lambda c: None) if src_ok else nan0)
+                    if how == "copy":
+                        cmds.append({"op": "opt_copy", "dst": 3, "src": 2})
+                    else:
+                        new(3)
+                        if dst_state != "fresh":
+                            init_on(3, (lambda c: None) if dst_state == "valid" else nan0)
+                        cmds.append({"op": "opt_assign", "dst": 3, "src": 2})
+                    cmds.append({"op": "verdict", "obj": 3})
+                    cmds.append({"op": "verdict", "obj": 2})
+                    cmds += [{"op": "opt_destroy", "obj": 3}, {"op": "opt_destroy", "obj": 2}]
                 if not quick:      # pairs of faults
                     for _ in range(40):
                         def mod2(c):
